@@ -702,6 +702,7 @@ func runAdapters(f lib.Flags, res *lib.Result, drv *lib.Driver) {
 		tie.Fail(fmt.Errorf("no driver"))
 	}
 	stalled := map[string]int{}
+	leaky := 0
 	for i, c := range cases {
 		n, fl := c.n(), c.fails()
 		if oracleVerdict(c.RPC, c.governing(), n, fl) == "" {
@@ -709,6 +710,12 @@ func runAdapters(f lib.Flags, res *lib.Result, drv *lib.Driver) {
 		}
 		if crashedStrategy(crashedFns, c.Read) || crashedStrategy(crashedFns, c.Write) {
 			mon.Count("skipped-crashing-entry-point")
+			continue
+		}
+		if leaky >= 2 && c.RPC == "Pull" {
+			// every subscription that leaves goroutines behind makes every later snapshot of the process dearer
+			// (and the run has failed on them already): the remaining subscriptions are skipped
+			mon.Count("skipped-after-2-leaking-Pull")
 			continue
 		}
 		if stalled[c.RPC] >= 2 {
@@ -750,6 +757,9 @@ func runAdapters(f lib.Flags, res *lib.Result, drv *lib.Driver) {
 		}
 		if strings.HasPrefix(o.Verdict, "stalled") {
 			stalled[c.RPC]++
+		}
+		if len(o.Left) > 0 {
+			leaky++
 		}
 		tie.Count(c.Trait + "/" + c.RPC)
 		tie.Count("verdict:" + o.Verdict)
